@@ -15,6 +15,31 @@ class Budget(BaseException):
     """Raised by nothing in here; reserved for the C04 step clock."""
 
 
+class CaseTimeout(BaseException):
+    pass
+
+
+class _CaseTimer:
+    """Repeating SIGALRM (a bare ``except:`` in the code under test may swallow a single raise)."""
+
+    def __init__(self, seconds):
+        self.seconds = seconds
+
+    def _fire(self, signum, frame):
+        raise CaseTimeout()
+
+    def __enter__(self):
+        import signal
+        self.old = signal.signal(signal.SIGALRM, self._fire)
+        signal.setitimer(signal.ITIMER_REAL, self.seconds, 0.25)
+
+    def __exit__(self, *exc):
+        import signal
+        signal.setitimer(signal.ITIMER_REAL, 0)
+        signal.signal(signal.SIGALRM, self.old)
+        return False
+
+
 class Ctx:
     MAX_FAILS_PER_KEY = 25
 
@@ -69,10 +94,19 @@ class Ctx:
         self._case_fails = 0
         self._case_nontrivial = False
         self.evaluations += 1
+        limit = getattr(self.module, "CASE_TIMEOUT_S", None)
         try:
-            self.module.check_case(self, case)
+            if limit and not self.replay:
+                with _CaseTimer(limit):
+                    self.module.check_case(self, case)
+            else:
+                self.module.check_case(self, case)
         except (KeyboardInterrupt, SystemExit):
             raise
+        except CaseTimeout:
+            # wall clock is only ever used to abstain from a case, never for a verdict
+            self.count("abstained:case-wall-clock-limit")
+            self._case_fails = 0
         except BaseException as e:   # harness or library blew up where no oracle expected it
             self.fail("harness-exception", observed=f"{type(e).__name__}: {e}",
                       expected="no exception escaping the oracle",
